@@ -11,7 +11,8 @@ SPEC = {
             'bounded-exhaustive depth-1 programs over the leaf basis, sampled/exhaustive depth-2, random deep programs '
             'in all three spellings (W3, W4); distinct/non-trivial as for C01', 2000),
     'C03': ('rv.dsl', 'every call yields a compilable, exportable pattern or a documented exception',
-            'documented-invalid arguments, stress programs, W3, W4, W5 under the compile/export/exception-type oracle', 2000),
+            'documented-invalid arguments, stress programs, valid raw regular expressions (escape=False) under every template, meta patterns as operands, deep / '
+            'many-operand / big-bound programs, W3, W4, W5 under the compile/export/exception-type oracle; class and meta engines under the same oracle', 2000),
     'C04': ('rv.dsl', 'quantifier bounds, greediness and spellings are exact',
             'quantifier lattice W5: operand basis x all (n,m) incl. invalid x greediness x spellings, plus random operands', 2000),
     'C05': ('rv.dsl', 'the empty pattern is neutral',
@@ -40,9 +41,11 @@ SPEC = {
     'C12': ('rv.api', 'capture extraction is consistent with the source and group identity',
             'as C11, all capture methods x include_empty x relative_to_match, plus slice laws on the returned positions', 300),
     'C13': ('rv.api', 'splitting and replacing reconstruct the source exactly',
-            'as C11; split_by_capture only on patterns whose captures are sequential siblings; reconstruction laws', 300),
+            'as C11; split_by_capture on patterns whose captures neither nest nor sit in lookarounds (alternated / repeated groups included, spans in text order); '
+            'reconstruction laws', 300),
     'C14': ('rv.api', 'file sources and context windows refer to the text, not the path',
-            'every is_path method on text vs temp file (audit hook on open), windows over {0,1,2,5,len,len+3}^2, invalid sizes', 100),
+            'every is_path method on text vs temp file (audit hook on open; CR / CRLF, BOM, decomposed characters, one file > 2**20 characters, the same path '
+            'rewritten with equal byte length), windows over {0,1,2,5,len,len+3}^2 and the defaults, invalid sizes', 100),
     'C15': ('rv.meta', 'Integer patterns match exactly the canonical numerals in range',
             'ranges from all digit-length combinations 1..6 x boundary shapes x 5 sign variants; per range boundary/length-shifted/'
             'leading-zero candidates alone (text start and end) and embedded in 22 contexts; every digit run judged MUST / MUST-NOT / '
